@@ -66,7 +66,7 @@ def gen_cont(rng, depth):
             cd['stack_form'] = rng.choice(['list', 'list', 'cell'])
         if rng.random() < 0.5:
             cd['save'] = {str(k): small() for k in rng.sample(range(16), rng.choice([1, 1, 2, 4]))}
-            cd['save_form'] = rng.choice(['dict', 'hashmap'])
+            cd['save_form'] = rng.choice(['dict', 'hashmap', 'hashmap-cells', 'cell'])
     if t == 'std':
         return {'t': t, 'cdata': cd, 'code': [_rbits(rng, rng.choice([0, 8, 40])), rng.choice([0, 1])]}
     return {'t': t, 'cdata': cd, 'next': sub()}
@@ -135,6 +135,17 @@ def build_cdata(v):
             for k, x in lsave.items():
                 hm.set_int_key(k, x)
             lsave = hm
+        elif v.get('save_form') in ('hashmap-cells', 'cell'):
+            # the other public forms: a HashMap(4) WITHOUT a value serialiser whose values are already-encoded VmStackValue cells
+            # (HashMap stores such cells inline), or the finished dictionary cell itself
+            def pre():
+                hm = HashMap(4)
+                for k, x in lsave.items():
+                    hm.set_int_key(k, VmStackValue.serialize(x))
+                return hm if v['save_form'] == 'hashmap-cells' else hm.serialize()
+            ok, res = call(pre)
+            if ok:
+                lsave = res
     return VmControlData('vm_ctl_data', nargs=v['nargs'], stack=lstack, save=lsave, cp=v['cp']), m
 
 
